@@ -3,4 +3,5 @@ pub mod common;
 pub mod c01;
 pub mod c02;
 pub mod c03;
+pub mod c05;
 pub mod c13;
